@@ -140,9 +140,13 @@ def run(ctx):
     importlib.import_module('props.numlit').run(ctx)
     # rbql-js/rbql.js is an anchor of this property too: the JavaScript leg runs language-neutral queries of this shape through rbql-js
     importlib.import_module('props.c19').js_leg(ctx, THEOREM, 'agg', 600 if ctx.tier == 'quick' else 60000)
+    # recorded finding F4: a null GROUP BY key in rbql-js (KNOWN-FINDING while it reproduces)
+    importlib.import_module('props.nullkeys').run(ctx, THEOREM, 'C03')
 
 
 def replay(ctx, case):
+    if case.get('part') == 'nullkeys':
+        return importlib.import_module('props.nullkeys').replay(ctx, case, THEOREM, 'C03')
     if str(case.get('part', '')).startswith('c03x'):
         return importlib.import_module('props.c03x').replay(ctx, case, THEOREM)
     if case.get('part') == 'numlit':
